@@ -481,6 +481,7 @@ func (t *Collection) VisitItemsRandom(
 	if err != nil {
 		return err
 	}
+	defer t.store.ItemDecRef(t, si) // MinItem added a reference for us.
 	err = t.VisitItemsAscendEx(si.Key, false, v)
 	if err != nil {
 		return err
@@ -554,6 +555,7 @@ func (t *Collection) VisitItemsAscendBlockEx(
 	if err != nil {
 		return err
 	}
+	defer t.store.ItemDecRef(t, si) // MinItem added a reference for us.
 	err = t.VisitItemsAscendEx(si.Key, false, v)
 	if err != nil {
 		return err
@@ -621,6 +623,7 @@ func (t *Collection) Len() (l int64, err error) {
 	if err != nil || si == nil {
 		return // An empty collection has no minimum item.
 	}
+	defer t.store.ItemDecRef(t, si) // MinItem added a reference for us.
 	err = t.VisitItemsAscendEx(si.Key, false, visitor)
 	return
 }
